@@ -4,7 +4,16 @@
 use derivative::Derivative;
 use serde::{Deserialize, Serialize};
 
-use crate::utility::U256Wrapper;
+use crate::{
+    constant::{
+        ADDRESS_WIDTH_BITS,
+        BOOL_WIDTH_BITS,
+        BYTE_SIZE_BITS,
+        FUNCTION_WIDTH_BITS,
+        SELECTOR_WIDTH_BITS,
+    },
+    utility::U256Wrapper,
+};
 
 /// Concretely known Solidity ABI types and additional informative types.
 ///
@@ -129,6 +138,22 @@ impl AbiType {
         Self::ConflictedType {
             conflicts: Vec::new(),
             reasons:   Vec::new(),
+        }
+    }
+
+    /// Gets the number of bits that a value of this type occupies within a word,
+    /// if the type has a known, fixed width.
+    #[must_use]
+    pub fn known_width_bits(&self) -> Option<usize> {
+        match self {
+            Self::Number { size } | Self::UInt { size } | Self::Int { size } => *size,
+            Self::Bits { length } => *length,
+            Self::Bytes { length } => length.map(|l| l.saturating_mul(BYTE_SIZE_BITS)),
+            Self::Address => Some(ADDRESS_WIDTH_BITS),
+            Self::Selector => Some(SELECTOR_WIDTH_BITS),
+            Self::Function => Some(FUNCTION_WIDTH_BITS),
+            Self::Bool => Some(BOOL_WIDTH_BITS),
+            _ => None,
         }
     }
 }
